@@ -133,6 +133,18 @@ func (r *chainRun) checkCrashImage(d *simkv.Disk, k, W int, v0 *nodeView, finalT
 			validChain = false
 		}
 	}
+	// ... and unless getting there means undoing a block at or below the recovered node's irreversible
+	// height: with a finality window the state machine rightly refuses that walk (C17), crash or not
+	if validChain {
+		irr := c.S.GetMeta().GetIrreversibleBlockHeight()
+		spPath, _ := r.cm.Path(sp)
+		for _, mb := range spPath {
+			if mb.Height > 0 && mb.Height <= irr && !r.cm.IsAncestor(mb.ID, tipMB.ID) && !bytes.Equal(mb.ID, tipMB.ID) {
+				validChain = false
+				r.rc.St.Probes["crash-walk-to-tip-barred-by-finality"]++
+			}
+		}
+	}
 	if validChain {
 		if err := c.S.Walk(tipMB.ID, false); err != nil {
 			return r.viol("crash-walk-to-tip-fails", "crash at %d/%d: Walk(ledger tip %s) from %s fails: %v", k, W, hx(tipMB.ID), hx(sp), err)
